@@ -87,37 +87,265 @@ Proof.
     simpl in Hv; try discriminate; cbn; repeat split; reflexivity.
 Qed.
 
-(* scandir / readdir with n entries, scandir iterated j times: checked for
-   every n <= 6 and every j <= n + 1 (a finite sweep; the bound is part of
-   the statement). *)
-Definition cleaned_b (k : fskind) (cb big : bool) (stt : lstate) : bool :=
-  let '(q, h) := reach k cb big stt (h0_of k) in
-  let '(q1, h1) := req_cleanup q h in
-  negb (bad_free h1) &&
-  (length (live h1) =? length (expected_live k stt))%nat &&
-  forallb (fun b => match b with BkDir => true | _ => false end) (live h1) &&
-  match q_path q1, q_newpath q1, q_bufs q1, q_ptr q1 with
-  | PNone, PNone, BNull, QNull => true
-  | _, _, _, _ => false
-  end.
+(* ------------------------------------------------------------------ *)
+(* scandir / readdir with live entries: any number n of entries, any number
+   j of uv_fs_scandir_next calls (induction over the entry list).          *)
+Lemma block_eqb_refl b : block_eqb b b = true.
+Proof. destruct b; simpl; auto; apply Nat.eqb_refl. Qed.
 
-Definition entry_states (n : nat) : list (fskind * lstate) :=
-  (KReaddir, LDonePool true n) :: (KScandir, LDonePool true n) ::
-  map (fun j => (KScandir, LIterated n j)) (seq 0 (n + 2)).
+Lemma block_eqb_true a b : block_eqb a b = true -> a = b.
+Proof. destruct a, b; simpl; try discriminate; auto; intros H; apply Nat.eqb_eq in H; now subst. Qed.
 
-Theorem cleanup_entries_bounded :
-  forall n cb big k stt, In n (seq 0 7) -> In (k, stt) (entry_states n) ->
-  cleaned_b k cb big stt = true.
+Lemma remove1_skip b pre rest :
+  ~ In b pre -> remove1 b (pre ++ b :: rest) = Some (pre ++ rest).
 Proof.
-  intros n cb big k stt Hn Hin.
-  assert (H : forallb (fun n => forallb (fun ks =>
-              cleaned_b (fst ks) true true (snd ks) && cleaned_b (fst ks) true false (snd ks) &&
-              cleaned_b (fst ks) false true (snd ks) && cleaned_b (fst ks) false false (snd ks))
-              (entry_states n)) (seq 0 7) = true) by (vm_compute; reflexivity).
-  rewrite forallb_forall in H. specialize (H n Hn).
-  rewrite forallb_forall in H. specialize (H (k, stt) Hin). simpl in H.
-  repeat (apply andb_prop in H; destruct H as [H ?]).
-  destruct cb, big; assumption.
+  induction pre as [|x pre IH]; intros Hn; simpl.
+  - now rewrite block_eqb_refl.
+  - destruct (block_eqb b x) eqn:E.
+    + apply block_eqb_true in E. subst. exfalso. apply Hn. now left.
+    + rewrite IH; auto. intros Hi. apply Hn. now right.
+Qed.
+
+Lemma release_skip b pre rest bf :
+  ~ In b pre -> release b (mkHeap (pre ++ b :: rest) bf) = mkHeap (pre ++ rest) bf.
+Proof. intros H. unfold release. cbn [live bad_free]. now rewrite remove1_skip. Qed.
+
+(* entries i .. n-1 of a scandir result, highest first (the order of alloc_dents) *)
+Fixpoint drange (i n : nat) : list block :=
+  match n with
+  | O => []
+  | S m => if (i <=? m)%nat then BkDent m :: drange i m else []
+  end.
+Fixpoint nrange (n : nat) : list block :=
+  match n with O => [] | S m => BkName m :: nrange m end.
+
+Lemma drange_in i n x : In x (drange i n) -> exists m, x = BkDent m /\ (i <= m < n)%nat.
+Proof.
+  induction n as [|m IH]; simpl; [tauto|].
+  destruct (i <=? m)%nat eqn:E; [|simpl; tauto]. apply Nat.leb_le in E.
+  intros [H|H]; [exists m; split; auto; lia|].
+  destruct (IH H) as (k & Hk & Hr). exists k. split; auto. lia.
+Qed.
+
+Lemma nrange_in n x : In x (nrange n) -> exists m, x = BkName m /\ (m < n)%nat.
+Proof.
+  induction n as [|m IH]; simpl; [tauto|].
+  intros [H|H]; [exists m; split; auto|].
+  destruct (IH H) as (k & Hk & Hr). exists k. split; auto.
+Qed.
+
+Lemma drange_nil i n : (n <= i)%nat -> drange i n = [].
+Proof.
+  destruct n as [|m]; simpl; auto. intros H.
+  destruct (i <=? m)%nat eqn:E; auto. apply Nat.leb_le in E. lia.
+Qed.
+
+Lemma alloc_dents_live n h : alloc_dents n h = mkHeap (drange 0 n ++ live h) (bad_free h).
+Proof.
+  induction n as [|m IH]; simpl; [destruct h; reflexivity|].
+  rewrite IH. reflexivity.
+Qed.
+
+Lemma alloc_names_live n h : alloc_names n h = mkHeap (nrange n ++ live h) (bad_free h).
+Proof.
+  induction n as [|m IH]; simpl; [destruct h; reflexivity|].
+  rewrite IH. reflexivity.
+Qed.
+
+(* for (; i < n; i++) free(dents[i]) releases exactly the entries i .. n-1 *)
+Lemma release_dents_range n : forall i pre rest bf,
+  (forall k, (k < n)%nat -> ~ In (BkDent k) pre) ->
+  release_dents i n (mkHeap (pre ++ drange i n ++ rest) bf) = mkHeap (pre ++ rest) bf.
+Proof.
+  induction n as [|m IH]; intros i pre rest bf Hp; simpl; [reflexivity|].
+  destruct (i <=? m)%nat eqn:E; [|reflexivity].
+  change (pre ++ (BkDent m :: drange i m) ++ rest)
+    with (pre ++ [BkDent m] ++ drange i m ++ rest).
+  rewrite app_assoc.
+  rewrite IH.
+  - rewrite <- app_assoc. apply release_skip. apply Hp. lia.
+  - intros k Hk Hi. apply in_app_or in Hi as [Hi|[Hi|[]]].
+    + revert Hi. apply Hp. lia.
+    + inversion Hi. lia.
+Qed.
+
+Lemma release_dents_range0 n i rest bf :
+  release_dents i n (mkHeap (drange i n ++ rest) bf) = mkHeap rest bf.
+Proof. apply (release_dents_range n i [] rest bf). intros; simpl; tauto. Qed.
+
+Lemma release_names_range n : forall pre rest bf,
+  (forall k, (k < n)%nat -> ~ In (BkName k) pre) ->
+  release_names n (mkHeap (pre ++ nrange n ++ rest) bf) = mkHeap (pre ++ rest) bf.
+Proof.
+  induction n as [|m IH]; intros pre rest bf Hp; simpl; [reflexivity|].
+  replace (pre ++ BkName m :: nrange m ++ rest)
+    with ((pre ++ [BkName m]) ++ nrange m ++ rest) by (rewrite <- app_assoc; reflexivity).
+  rewrite IH.
+  - rewrite <- app_assoc. apply release_skip. apply Hp. lia.
+  - intros k Hk Hi. apply in_app_or in Hi as [Hi|[Hi|[]]].
+    + revert Hi. apply Hp. lia.
+    + inversion Hi. lia.
+Qed.
+
+Lemma release_names_range0 n rest bf :
+  release_names n (mkHeap (nrange n ++ rest) bf) = mkHeap rest bf.
+Proof. apply (release_names_range n [] rest bf). intros; simpl; tauto. Qed.
+
+(* uv_fs_scandir_next frees the entry handed out before: the lowest live one *)
+Lemma remove_lowest p n rest :
+  (p < n)%nat -> remove1 (BkDent p) (drange p n ++ rest) = Some (drange (S p) n ++ rest).
+Proof.
+  induction n as [|m IH]; intros Hp; [lia|]. cbn [drange].
+  replace (p <=? m)%nat with true by (symmetry; apply Nat.leb_le; lia).
+  destruct (Nat.eq_dec p m) as [->|Hne].
+  - replace (S m <=? m)%nat with false by (symmetry; apply Nat.leb_gt; lia).
+    rewrite (drange_nil m m) by lia.
+    cbn [app remove1 block_eqb]. rewrite Nat.eqb_refl. reflexivity.
+  - cbn [app remove1 block_eqb].
+    replace (p =? m)%nat with false by (symmetry; apply Nat.eqb_neq; exact Hne).
+    rewrite IH by lia.
+    replace (S p <=? m)%nat with true by (symmetry; apply Nat.leb_le; lia). reflexivity.
+Qed.
+
+Lemma release_lowest p n rest bf :
+  (p < n)%nat ->
+  release (BkDent p) (mkHeap (drange p n ++ rest) bf) = mkHeap (drange (S p) n ++ rest) bf.
+Proof. intros H. unfold release. cbn [live bad_free]. now rewrite remove_lowest. Qed.
+
+(* the request and heap after j calls of uv_fs_scandir_next on n > 0 entries *)
+Definition sc_req (cb : bool) (pr : pathref) (pt : ptrref) (n : nat) : lreq :=
+  mkReq KScandir cb pr PNone BNull pt (Z.of_nat n).
+Definition sc_state (cb : bool) (pr : pathref) (base : list block) (n j : nat) : lreq * heap :=
+  if (j <=? n)%nat
+  then (sc_req cb pr (QScandir n j) n, mkHeap (drange (pred j) n ++ BkDents :: base) false)
+  else (sc_req cb pr QNull n, mkHeap base false).
+
+Lemma sc_next cb pr base n j :
+  (0 < n)%nat ->
+  scandir_next (fst (sc_state cb pr base n j)) (snd (sc_state cb pr base n j)) =
+  sc_state cb pr base n (S j).
+Proof.
+  intros Hn. unfold sc_state.
+  destruct (j <=? n)%nat eqn:Ej; cbn [fst snd].
+  2:{ apply Nat.leb_gt in Ej.
+      replace (S j <=? n)%nat with false by (symmetry; apply Nat.leb_gt; lia). reflexivity. }
+  apply Nat.leb_le in Ej.
+  unfold scandir_next, sc_req. cbn [q_ptr q_result q_bufs set_ptr q_kind q_cb q_path q_newpath].
+  destruct j as [|p].
+  - replace (0 =? n)%nat with false by (symmetry; apply Nat.eqb_neq; lia).
+    replace (1 <=? n)%nat with true by (symmetry; apply Nat.leb_le; lia). reflexivity.
+  - cbn [pred]. rewrite release_lowest by lia.
+    destruct (S p =? n)%nat eqn:En.
+    + apply Nat.eqb_eq in En.
+      replace (S (S p) <=? n)%nat with false by (symmetry; apply Nat.leb_gt; lia).
+      rewrite (drange_nil (S p) n) by lia. cbn [app].
+      unfold release. cbn [live bad_free remove1 block_eqb]. reflexivity.
+    + apply Nat.eqb_neq in En.
+      replace (S (S p) <=? n)%nat with true by (symmetry; apply Nat.leb_le; lia). reflexivity.
+Qed.
+
+Lemma sc_iter cb pr base n : (0 < n)%nat -> forall k j,
+  iter_next k (fst (sc_state cb pr base n j)) (snd (sc_state cb pr base n j)) =
+  sc_state cb pr base n (j + k).
+Proof.
+  intros Hn. induction k as [|k IH]; intros j; simpl.
+  - rewrite Nat.add_0_r. now destruct (sc_state cb pr base n j).
+  - rewrite (sc_next cb pr base n j Hn).
+    pose proof (IH (S j)) as H.
+    destruct (sc_state cb pr base n (S j)) as [q' h']. cbn [fst snd] in H.
+    rewrite H. f_equal. lia.
+Qed.
+
+Lemma iter_next_null k q h : q_ptr q = QNull -> iter_next k q h = (q, h).
+Proof.
+  revert q h; induction k as [|k IH]; intros q h Hq; simpl; auto.
+  unfold scandir_next. rewrite Hq. apply IH. exact Hq.
+Qed.
+
+Lemma not_in_drange_path i n : ~ In BkPath (drange i n ++ [BkDents]).
+Proof.
+  intros H. apply in_app_or in H as [H|[H|[]]]; [|discriminate].
+  destruct (drange_in _ _ _ H) as (m & Hm & _). discriminate.
+Qed.
+
+(* cleanup in any iteration state *)
+Lemma sc_cleanup (cb : bool) n j :
+  (0 < n)%nat ->
+  let pr := if cb then PHeap else PUser in
+  let base := if cb then [BkPath] else [] in
+  let '(q1, h1) := req_cleanup (fst (sc_state cb pr base n j)) (snd (sc_state cb pr base n j)) in
+  bad_free h1 = false /\ live h1 = [] /\ null_req q1.
+Proof.
+  intros Hn pr base. unfold sc_state.
+  destruct (j <=? n)%nat eqn:Ej; cbn [fst snd].
+  - unfold req_cleanup, sc_req.
+    cbn [q_path q_cb q_kind q_ptr q_bufs q_result q_newpath is_temp orb].
+    replace (0 <=? Z.of_nat n) with true by (symmetry; apply Z.leb_le; lia).
+    rewrite Nat2Z.id.
+    replace (match j with O => O | S p => p end) with (pred j) by (destruct j; reflexivity).
+    destruct cb; subst pr base; cbn [orb].
+    + change (drange (pred j) n ++ [BkDents; BkPath]) with (drange (pred j) n ++ BkDents :: [BkPath]).
+      replace (drange (pred j) n ++ BkDents :: [BkPath])
+        with ((drange (pred j) n ++ [BkDents]) ++ BkPath :: []) by (rewrite <- app_assoc; reflexivity).
+      rewrite release_skip by apply not_in_drange_path.
+      rewrite app_nil_r.
+      rewrite release_dents_range0.
+      cbn. unfold null_req. cbn. repeat split; reflexivity.
+    + rewrite release_dents_range0.
+      cbn. unfold null_req. cbn. repeat split; reflexivity.
+  - destruct cb; subst pr base; cbn; unfold null_req; cbn; repeat split; reflexivity.
+Qed.
+
+(* scandir with n entries after any number j of uv_fs_scandir_next calls *)
+Theorem cleanup_scandir_iterated :
+  forall n j cb big, cleaned KScandir cb big (LIterated n j).
+Proof.
+  intros n j cb big. unfold cleaned, reach.
+  destruct n as [|m].
+  - (* no entries: ptr = NULL from the start *)
+    destruct cb; cbn [req_init has_path h0_of work_effect q_kind set_ptr q_bufs q_cb q_path q_newpath q_ptr];
+      rewrite iter_next_null by reflexivity; cbn; unfold null_req; cbn; repeat split; reflexivity.
+  - set (n := S m).
+    assert (Hn : (0 < n)%nat) by (unfold n; lia).
+    pose proof (sc_cleanup cb n j Hn) as Hc. cbv zeta in Hc.
+    pose proof (sc_iter cb (if cb then PHeap else PUser) (if cb then [BkPath] else []) n Hn j 0) as Hi.
+    rewrite Nat.add_0_l in Hi.
+    assert (Hreach :
+      (let '(q, h1) := req_init KScandir cb big (h0_of KScandir) in
+       let '(q2, h2) := work_effect q true n h1 in iter_next j q2 h2) =
+      sc_state cb (if cb then PHeap else PUser) (if cb then [BkPath] else []) n j).
+    { rewrite <- Hi. unfold sc_state at 1 2. cbn [Nat.leb fst snd pred].
+      destruct cb; cbn [req_init has_path h0_of alloc live bad_free];
+        unfold work_effect; cbn [q_kind set_ptr q_bufs q_cb q_path q_newpath q_ptr];
+        unfold n at 1; cbv iota; fold n;
+        rewrite alloc_dents_live; reflexivity. }
+    rewrite Hreach.
+    destruct (sc_state cb _ _ n j) as [q h]. cbn [fst snd] in Hc.
+    destruct (req_cleanup q h) as [q1 h1]. exact Hc.
+Qed.
+
+Theorem cleanup_scandir_done :
+  forall n cb big, cleaned KScandir cb big (LDonePool true n).
+Proof.
+  intros n cb big. pose proof (cleanup_scandir_iterated n 0 cb big) as H.
+  unfold cleaned, reach in *. cbn [iter_next] in H.
+  destruct (req_init KScandir cb big (h0_of KScandir)) as [q h1].
+  destruct (work_effect q true n h1) as [q2 h2]. exact H.
+Qed.
+
+(* readdir that returned n names *)
+Theorem cleanup_readdir_done :
+  forall n cb big, cleaned KReaddir cb big (LDonePool true n).
+Proof.
+  intros n cb big. unfold cleaned, reach.
+  destruct cb; cbn [req_init has_path h0_of]; unfold work_effect, set_ptr;
+    cbn [q_kind q_bufs q_cb q_path q_newpath q_ptr];
+    rewrite alloc_names_live; unfold req_cleanup;
+    cbn [q_path q_cb q_kind q_ptr q_bufs q_result q_newpath is_temp orb live bad_free];
+    (replace (0 <=? Z.of_nat n) with true by (symmetry; apply Z.leb_le; lia));
+    rewrite Nat2Z.id;
+    rewrite release_names_range0;
+    cbn; unfold null_req; cbn; repeat split; reflexivity.
 Qed.
 
 (* uv_fs_req_cleanup may be called again: on a cleaned request it does nothing *)
